@@ -302,3 +302,5 @@ amend("C13", text="TransformedTargetClassifier2.fit / _apply_transform with an o
 amend("C15", text="SkBaseTransform.fit_transform passes the extra fit arguments on and returns the transform of the same data.")
 amend("C11", text="ExtendedFeatures.fit is also verified starting from stale fitted attributes of another configuration.")
 amend("C05", text="_epsilon is verified for real and for integer targets.")
+amend("C06", text="_k_init (k-means++ seeding, dense data) is proved: k centres, each a row of the data, no index out of range whatever the random draws "
+                  "are; no assumed in-repo step is left in C06.")
